@@ -92,6 +92,90 @@ def pool_check(run, n, procs_list, count):
     return evals, None
 
 
+class _Fixed:
+    """A picklable generator returning the given complete games in turn."""
+
+    def __init__(self, games, n):
+        self.games, self.n, self.i = games, n, 0
+
+    def __call__(self, *a):
+        from pyvc.mode import native_pkg
+        import numpy as np
+        g = native_pkg().mod("game").IncompleteCooperativeGame(self.n)
+        g.set_values(np.array(self.games[self.i % len(self.games)], dtype=float))
+        self.i += 1
+        return g
+
+
+def block_game(rng, n):
+    """A superadditive 4-player game in which one pair of players already produces everything (v(P) = v(N) = 1, the
+    complementary pair is worth 0, the other values dyadic).  Reveal sets that pin such a game down completely exist
+    at sizes well below the number of unknown coalitions, followed in enumeration order by sets with a positive gap."""
+    from rt.gen import is_superadditive
+    assert n == 4
+    while True:
+        P = rng.choice([3, 5, 6, 9, 10, 12])
+        Q = 15 ^ P
+        v = [0.0] * 16
+        for c in range(16):
+            k = bin(c).count("1")
+            if k == 2:
+                v[c] = 1.0 if c == P else 0.0 if c == Q else rng.choice([0.0, 0.25, 0.5])
+        for c in range(16):
+            if bin(c).count("1") == 3:
+                pairs = [d for d in range(16) if bin(d).count("1") == 2 and d & c == d]
+                v[c] = 1.0 if P & c == P else min(1.0, max(v[d] for d in pairs) + rng.choice([0.0, 0.25]))
+        v[15] = 1.0
+        if is_superadditive(v, 4):
+            return v
+
+
+def best_states_bruteforce(run, n, steps, reps, procs, structured=False):
+    """Bounded: get_best_exploitability on the real package against brute force over ALL reveal sets of each size,
+    several sampled games (so that mean, max and single columns differ)."""
+    import itertools as it
+    import numpy as np
+    from pyvc.mode import native_pkg
+    P = native_pkg()
+    model, bs, game_m, bounds, co = P.mod("run.model"), P.mod("run.best_states"), P.mod("game"), P.mod("bounds"), P.mod("coalitions")
+    inst = model.ModelInstance(number_of_players=n, game_class="superadditive_cached", game_generator="noisy_factory",
+                               seed=run.rng.randrange(1 << 30))
+    env = inst.get_env()
+    if structured:
+        one = block_game(run.rng, n)
+        env.generator = _Fixed([one for _ in range(reps)], n)
+    games = []
+    orig = env.generator
+
+    def recording():
+        g = orig()
+        games.append(np.array(g.get_values(), copy=True))
+        return g
+    env.generator = recording
+    rows, sets = bs.get_best_exploitability(env, steps, reps, inst.gap_function_callable, processes=procs)
+    games = games[-reps:]
+    expl = [c.id for c in env.explorable_coalitions]
+    gapf = inst.gap_function_callable
+    for s in range(steps + 1):
+        best = None
+        for cmb in it.combinations(expl, s):
+            col = []
+            for v in games:
+                g = game_m.IncompleteCooperativeGame(n, bounds.BOUNDS["superadditive_cached"])
+                ks = sorted(set(minimal(n)) | set(cmb))
+                g.set_known_values([v[c] for c in ks], [co.Coalition(c) for c in ks])
+                g.compute_bounds()
+                col.append(float(gapf(g)))
+            m = float(np.mean(col))
+            if best is None or m < best[0] - 1e-12:
+                best = (m, cmb, col)
+        got = float(np.mean(rows[s]))
+        if abs(got - best[0]) > 1e-9 * max(1.0, abs(best[0])) or len(sets[s]) != s:
+            return {"n": n, "size": s, "reported_mean": got, "optimal_mean": best[0], "reported_set": list(map(int, sets[s])),
+                    "optimal_set": list(best[1]), "repetitions": reps, "processes": procs}
+    return None
+
+
 def main(run):
     pkg = E.solver_package()
     run.pkg = pkg
@@ -141,6 +225,18 @@ def main(run):
         rows.append({"n": n, "evaluations": e, "failure": w})
         if w:
             run._report_violation(f"pool[n={n}]/independent_of_workers", E.sc_search, {"n": n, "max_size": 1}, w, True, detail={"layer": "bounded"})
+    bf = []
+    for n, steps, reps, procs, structured in (((3, 3, 3, 1, False), (4, 2, 3, 2, False), (4, 10, 2, 1, True)) if quick else
+                                              ((3, 3, 4, 1, False), (4, 2, 3, 2, False), (4, 3, 2, 3, False), (4, 10, 2, 1, True), (4, 10, 1, 3, True))):
+        w = best_states_bruteforce(run, n, steps, reps, procs, structured)
+        run.native_evals += 1
+        run.native_distinct.add(("bf", n, steps, reps))
+        bf.append({"n": n, "steps": steps, "repetitions": reps, "processes": procs, "block_additive_games": structured, "failure": w})
+        if w:
+            run._report_violation(f"best_states.native[n={n},reps={reps}]/optimal", E.sc_best_states, {"n": n, "max_steps": steps, "repetitions": reps},
+                                  w, True, detail={"layer": "bounded"})
+    run.bounded.append({"label": "best-states vs brute force over all reveal sets (several sampled games)", "rows": bf,
+                        "bound": "noisy_factory, n=3 (3 steps), n=4 (2 steps), 3 sampled games"})
     run.bounded.append({"label": "real multiprocessing.Pool", "rows": rows,
                         "bound": "process counts 1,2,4 (up to 16 thorough), seeded games x knowledge x computers x gap functions; meta-game values"})
     return run.finish(
